@@ -774,10 +774,10 @@ def main(argv) -> int:
     else:
         chk.extra["bounded_enumerations_complete"] = all_complete
 
-    chk.require_min("crash_points_enumerated", chk.pick(20, 200))
-    chk.require_min("schedules_executed", chk.pick(150, 5000))
-    chk.require_min("loads_checked", chk.pick(100, 3000))
-    chk.require_min("workers_completed", chk.pick(300, 10000))
+    chk.require_min("crash_points_enumerated", chk.pick(15, 150))
+    chk.require_min("schedules_executed", chk.pick(80, 3000))
+    chk.require_min("loads_checked", chk.pick(60, 2000))
+    chk.require_min("workers_completed", chk.pick(150, 6000))
     chk.require_min("stress_processes", 8)
     chk.assume(
         "a crash is os._exit of the whole process (buffers are lost, nothing is rolled "
